@@ -319,6 +319,36 @@ theorem C04_classification_boundary (e : Nat) (tkx σt key : Bytes) (v : UInt8)
       Gen.C04.handleAccountSpendCases, classifierByName, isExpirySpend, isTaprootExpirySpend, hasAnnex,
       casePath, hv1, hkey, Gen.C04.taprootExpiryMinScriptLen, Gen.C04.TaprootExpiryScriptSize, hgt, isMultiSigSpend]
 
+/-- **Size constants** (regenerated) are what Pool's fee estimation and `IsTaprootExpirySpend` rely on: the
+p2wsh script fits `AccountWitnessScriptSize` for every expiry below 2^31, the taproot leaf lies within
+`[minScriptLen, TaprootExpiryScriptSize]` for every expiry below 2^23 and has exactly the maximal size for
+3-byte expiries (heights 32768 … 8388607). -/
+theorem C04_script_sizes (e : Nat) (tk ak tkx : Bytes) (htk : tk.length = 33) (hak : ak.length = 33)
+    (hx : tkx.length = 32) :
+    (e < 2 ^ 31 → (accountWitnessScript e tk ak).length ≤ Gen.C04.AccountWitnessScriptSize) ∧
+    (e < 2 ^ 23 → Gen.C04.taprootExpiryMinScriptLen ≤ (taprootExpiryScript e tkx).length ∧
+      (taprootExpiryScript e tkx).length ≤ Gen.C04.TaprootExpiryScriptSize) ∧
+    (2 ^ 15 ≤ e → e < 2 ^ 23 → (taprootExpiryScript e tkx).length = Gen.C04.TaprootExpiryScriptSize) := by
+  refine ⟨?_, ?_, ?_⟩
+  · intro h
+    have he : e < 2 ^ 32 := by omega
+    rw [accountWitnessScript_eq e tk ak htk hak he]
+    have hL := pushNumBytes_length e he
+    simp only [List.length_append, List.length_cons, List.length_nil, htk, hak, Gen.C04.AccountWitnessScriptSize]
+    split at hL <;> (try split at hL) <;> (try split at hL) <;> (try split at hL) <;> (try split at hL) <;> omega
+  · intro h
+    have he : e < 2 ^ 32 := by omega
+    rw [taprootExpiryScript_length e tkx hx he]
+    have hL := pushNumBytes_length e he
+    simp only [Gen.C04.taprootExpiryMinScriptLen, Gen.C04.TaprootExpiryScriptSize]
+    split at hL <;> (try split at hL) <;> (try split at hL) <;> (try split at hL) <;> (try split at hL) <;> omega
+  · intro h1 h2
+    have he : e < 2 ^ 32 := by omega
+    rw [taprootExpiryScript_length e tkx hx he]
+    have hL := pushNumBytes_length e he
+    simp only [Gen.C04.TaprootExpiryScriptSize]
+    split at hL <;> (try split at hL) <;> (try split at hL) <;> (try split at hL) <;> (try split at hL) <;> omega
+
 /-! ## signatures made for other parameters -/
 
 theorem accountWitnessScript_inj (e e' : Nat) (tk ak tk' ak' : Bytes)
@@ -334,41 +364,75 @@ theorem accountWitnessScript_inj (e e' : Nat) (tk ak tk' ak' : Bytes)
   simp only [Except.ok.injEq, Int.natCast_inj] at d
   exact ⟨d.symm, h1.symm, h2.symm⟩
 
-/-- **C04, signatures for another batch key, secret or expiry are invalid** (ideal signatures).
-`sign pk msg` is the only string that verifies under `pk` for `msg` and is injective; the trader key tweak
-`tweakT batchKey secret` is injective (for the fixed base key), the auctioneer tweak `tweakA` is a function of
-the tweaked trader key; `sighash` (fixed transaction and input) is injective in the committed script.
-Then a trader signature made for `(batchKey', secret', expiry') ≠ (batchKey, secret, expiry)` does not verify
-in the real output's script, and no witness carrying it in the trader slot spends the output. -/
+/-- the version-0 account script as a function of the property's parameters: `tweakT batchKey secret` is the
+tweaked trader key (for the fixed base key), `tweakA` derives the tweaked auctioneer key from it -/
+def acctScript (tweakT : Bytes → Bytes → Bytes) (tweakA : Bytes → Bytes) (b s : Bytes) (e : Nat) : Bytes :=
+  accountWitnessScript e (tweakT b s) (tweakA (tweakT b s))
+
+/-- **C04, signatures for another batch key, secret or expiry are invalid** (ideal signatures, p2wsh).
+`sign pk msg` is the signature of `msg` under `pk`, verification is `σ = sign pk msg`; `sighash` is the BIP-143
+digest of the fixed spending transaction as a function of the committed script.  The cryptographic assumptions
+are stated *at the two parameter sets in question* (no collision of the key-tweak hash, of the sighash and of
+signatures between them) – a global injectivity of functions into 33/32-byte strings would be unsatisfiable.
+Then a trader signature made for `(batchKey', secret', expiry') ≠ (batchKey, secret, expiry)` does not verify in
+the real output's script, and no witness carrying it in the trader slot spends the output. -/
 theorem C04_wrong_params_invalid
-    (sign : Bytes → Bytes → Bytes) (hsign : ∀ pk m pk' m', sign pk m = sign pk' m' → pk = pk' ∧ m = m')
-    (sighash : Bytes → Bytes) (hsh : ∀ s s', sighash s = sighash s' → s = s')
-    (tweakT : Bytes → Bytes → Bytes) (htw : ∀ b s b' s', tweakT b s = tweakT b' s' → b = b' ∧ s = s')
-    (htl : ∀ b s, (tweakT b s).length = 33)
-    (tweakA : Bytes → Bytes) (hal : ∀ t, (tweakA t).length = 33)
-    (b s b' s' : Bytes) (e e' : Nat) (he : e < 2 ^ 32) (he' : e' < 2 ^ 32)
+    (sign : Bytes → Bytes → Bytes) (sighash : Bytes → Bytes) (tweakT : Bytes → Bytes → Bytes)
+    (tweakA : Bytes → Bytes) (b s b' s' : Bytes) (e e' : Nat) (he : e < 2 ^ 32) (he' : e' < 2 ^ 32)
+    (htl : (tweakT b s).length = 33) (htl' : (tweakT b' s').length = 33)
+    (hal : (tweakA (tweakT b s)).length = 33) (hal' : (tweakA (tweakT b' s')).length = 33)
+    (htw : tweakT b' s' = tweakT b s → b' = b ∧ s' = s)
+    (hsh : sighash (acctScript tweakT tweakA b' s' e') = sighash (acctScript tweakT tweakA b s e) →
+      acctScript tweakT tweakA b' s' e' = acctScript tweakT tweakA b s e)
+    (hsign : sign (tweakT b' s') (sighash (acctScript tweakT tweakA b' s' e')) =
+        sign (tweakT b s) (sighash (acctScript tweakT tweakA b s e)) →
+      tweakT b' s' = tweakT b s ∧
+        sighash (acctScript tweakT tweakA b' s' e') = sighash (acctScript tweakT tweakA b s e))
     (hne : ¬ (b' = b ∧ s' = s ∧ e' = e)) (lt sq : Nat) (σa : Bytes) (hσa : σa.length ≤ MaxScriptElementSize)
-    (hσl : (sign (tweakT b' s') (sighash (accountWitnessScript e' (tweakT b' s') (tweakA (tweakT b' s'))))).length
-      ≤ MaxScriptElementSize) :
-    let tk := tweakT b s
-    let S := accountWitnessScript e tk (tweakA tk)
-    let tk' := tweakT b' s'
-    let S' := accountWitnessScript e' tk' (tweakA tk')
+    (hσl : (sign (tweakT b' s') (sighash (acctScript tweakT tweakA b' s' e'))).length ≤ MaxScriptElementSize) :
+    let S := acctScript tweakT tweakA b s e
+    let σ' := sign (tweakT b' s') (sighash (acctScript tweakT tweakA b' s' e'))
     let idealOK : Bytes → Bytes → Bool := fun pk σ => decide (σ = sign pk (sighash S))
-    idealOK tk (sign tk' (sighash S')) = false ∧
-    verifyP2WSH (stdCtx false lt sq idealOK) (Sha256.sha256 S) [σa, sign tk' (sighash S'), S] ≠ .ok () := by
-  intro tk S tk' S' idealOK
-  have hbad : idealOK tk (sign tk' (sighash S')) = false := by
+    idealOK (tweakT b s) σ' = false ∧
+    verifyP2WSH (stdCtx false lt sq idealOK) (Sha256.sha256 S) [σa, σ', S] ≠ .ok () := by
+  intro S σ' idealOK
+  have hbad : idealOK (tweakT b s) σ' = false := by
     simp only [idealOK, decide_eq_false_iff_not]
     intro heq
-    obtain ⟨hk, hm⟩ := hsign _ _ _ _ heq
-    obtain ⟨hb, hs⟩ := htw _ _ _ _ hk
-    have hS := hsh _ _ hm
-    have := accountWitnessScript_inj e' e tk' (tweakA tk') tk (tweakA tk) (htl _ _) (hal _) (htl _ _) (hal _)
-      he' he hS
+    obtain ⟨hk, hm⟩ := hsign heq
+    obtain ⟨hb, hs⟩ := htw hk
+    have hS := hsh hm
+    have := accountWitnessScript_inj e' e _ _ _ _ htl' hal' htl hal he' he hS
     exact hne ⟨hb, hs, this.1⟩
   refine ⟨hbad, ?_⟩
-  exact C04_p2wsh_auctioneer_only lt sq idealOK e tk (tweakA tk) σa _ (htl _ _) (hal _) he hσa hσl (Or.inr hbad)
+  exact C04_p2wsh_auctioneer_only lt sq idealOK e (tweakT b s) (tweakA (tweakT b s)) σa σ' htl hal he hσa hσl
+    (Or.inr hbad)
+
+/-- toy instances used to show that the hypotheses of `C04_wrong_params_invalid` are jointly satisfiable -/
+def exTweakT : Bytes → Bytes → Bytes := fun b s => List.replicate 33 (b.headD 0 + s.headD 0)
+def exTweakA : Bytes → Bytes := fun t => List.replicate 33 (t.headD 0 + 1)
+def exSign : Bytes → Bytes → Bytes := fun pk m => pk ++ m
+
+/-- non-vacuity: foreign expiry (same keys), with concatenation as `sign` and the identity as `sighash` -/
+example :
+    verifyP2WSH (stdCtx false 60000 0 (fun pk σ => decide (σ = exSign pk (acctScript exTweakT exTweakA [1] [2] 52560))))
+      (Sha256.sha256 (acctScript exTweakT exTweakA [1] [2] 52560))
+      [[], exSign (exTweakT [1] [2]) (acctScript exTweakT exTweakA [1] [2] 52561),
+        acctScript exTweakT exTweakA [1] [2] 52560] ≠ .ok () :=
+  (C04_wrong_params_invalid exSign id exTweakT exTweakA [1] [2] [1] [2] 52560 52561 (by decide) (by decide)
+    (by decide) (by decide) (by decide) (by decide) (fun _ => ⟨rfl, rfl⟩) (fun h => h)
+    (fun h => ⟨rfl, List.append_cancel_left h⟩) (by decide) 60000 0 [] (by decide) (by decide)).2
+
+/-- non-vacuity: foreign batch key -/
+example :
+    verifyP2WSH (stdCtx false 60000 0 (fun pk σ => decide (σ = exSign pk (acctScript exTweakT exTweakA [1] [2] 52560))))
+      (Sha256.sha256 (acctScript exTweakT exTweakA [1] [2] 52560))
+      [[], exSign (exTweakT [3] [2]) (acctScript exTweakT exTweakA [3] [2] 52560),
+        acctScript exTweakT exTweakA [1] [2] 52560] ≠ .ok () :=
+  (C04_wrong_params_invalid exSign id exTweakT exTweakA [1] [2] [3] [2] 52560 52560 (by decide) (by decide)
+    (by decide) (by decide) (by decide) (by decide) (fun h => absurd h (by decide)) (fun h => h)
+    (fun h => absurd (congrArg (fun l => l.headD 0) h) (by decide)) (by decide) 60000 0 [] (by decide)
+    (by decide)).2
 
 /-! ## taproot -/
 
@@ -475,6 +539,102 @@ theorem C04_taproot_spendable_iff (lt sq : Nat) (sigOK : Bytes → Bytes → Boo
           injection h with h2 _
           subst h1; subst h2
           exact absurd hc' hc
+
+theorem taprootExpiryScript_inj (e e' : Nat) (tkx tkx' : Bytes) (hx : tkx.length = 32) (hx' : tkx'.length = 32)
+    (he : e < 2 ^ 32) (he' : e' < 2 ^ 32) (h : taprootExpiryScript e tkx = taprootExpiryScript e' tkx') :
+    e = e' ∧ tkx = tkx' := by
+  have p := parse_taprootExpiryScript e tkx hx he
+  rw [h, parse_taprootExpiryScript e' tkx' hx' he'] at p
+  simp only [taprootInstrs, Option.some.injEq, List.cons.injEq, Instr.push.injEq, and_true, true_and] at p
+  obtain ⟨h1, h3⟩ := p
+  have d := (numOK_scriptNum e he).dec
+  rw [← h3, (numOK_scriptNum e' he').dec] at d
+  simp only [Except.ok.injEq, Int.natCast_inj] at d
+  exact ⟨d.symm, h1.symm⟩
+
+/-- the taproot expiry leaf as a function of the property's parameters (`tweakX` = x-only tweaked trader key) -/
+def tapLeaf (tweakX : Bytes → Bytes → Bytes) (b s : Bytes) (e : Nat) : Bytes :=
+  taprootExpiryScript e (tweakX b s)
+
+/-- **C04, signatures for another batch key, secret or expiry are invalid – taproot.**
+`outKey leaf` is the output key (MuSig2 aggregate of the two base keys tweaked with the leaf hash); the key-path
+message `keyMsg` and the tapscript digest `sighash leaf` belong to the fixed spending transaction.  Assumptions
+again only at the two parameter sets: no collision of the trader-key tweak, of the taproot commitment
+(`outKey`), of the sighash and of signatures.  Then neither the MuSig2 signature made for the other parameters
+(key path) nor the trader's Schnorr signature made for them (script path, with the real leaf and any committed
+control block) spends the real output. -/
+theorem C04_wrong_params_invalid_taproot
+    (sign : Bytes → Bytes → Bytes) (sighash : Bytes → Bytes) (tweakX : Bytes → Bytes → Bytes)
+    (outKey : Bytes → Bytes) (keyMsg : Bytes)
+    (b s b' s' : Bytes) (e e' : Nat) (he : e < 2 ^ 32) (he' : e' < 2 ^ 32)
+    (hxl : (tweakX b s).length = 32) (hxl' : (tweakX b' s').length = 32)
+    (htw : tweakX b' s' = tweakX b s → b' = b ∧ s' = s)
+    (hout : outKey (tapLeaf tweakX b' s' e') = outKey (tapLeaf tweakX b s e) →
+      tapLeaf tweakX b' s' e' = tapLeaf tweakX b s e)
+    (hsh : sighash (tapLeaf tweakX b' s' e') = sighash (tapLeaf tweakX b s e) →
+      tapLeaf tweakX b' s' e' = tapLeaf tweakX b s e)
+    (hsignK : sign (outKey (tapLeaf tweakX b' s' e')) keyMsg = sign (outKey (tapLeaf tweakX b s e)) keyMsg →
+      outKey (tapLeaf tweakX b' s' e') = outKey (tapLeaf tweakX b s e))
+    (hsignS : sign (tweakX b' s') (sighash (tapLeaf tweakX b' s' e')) =
+        sign (tweakX b s) (sighash (tapLeaf tweakX b s e)) →
+      tweakX b' s' = tweakX b s ∧ sighash (tapLeaf tweakX b' s' e') = sighash (tapLeaf tweakX b s e))
+    (hne : ¬ (b' = b ∧ s' = s ∧ e' = e)) (lt sq : Nat) (commitOK : Bytes → Bytes → Bytes → Bool)
+    (hcommit : ∀ cb sc, commitOK cb (outKey (tapLeaf tweakX b s e)) sc = true →
+      sc = tapLeaf tweakX b s e ∧ cb.length = 33 ∧ ∃ v rest, cb = v :: rest ∧ v.toNat / 2 * 2 = 0xc0) :
+    let L := tapLeaf tweakX b s e
+    let L' := tapLeaf tweakX b' s' e'
+    let env : TapEnv := { keySpendOK := fun pk σ => decide (σ = sign pk keyMsg), commitOK := commitOK }
+    let ctx := stdCtx true lt sq (fun pk σ => decide (σ = sign pk (sighash L)))
+    ((sign (outKey L') keyMsg).length ≤ MaxScriptElementSize →
+      verifyTaproot ctx env (outKey L) [sign (outKey L') keyMsg] ≠ .ok ()) ∧
+    (∀ cb, hasAnnex [sign (tweakX b' s') (sighash L'), L, cb] = false →
+      (∀ x ∈ [sign (tweakX b' s') (sighash L'), L, cb], x.length ≤ MaxScriptElementSize) →
+      verifyTaproot ctx env (outKey L) [sign (tweakX b' s') (sighash L'), L, cb] ≠ .ok ()) := by
+  intro L L' env ctx
+  have hLne : L' ≠ L := by
+    intro h
+    have := taprootExpiryScript_inj e' e _ _ hxl' hxl he' he h
+    exact hne ⟨(htw this.2).1, (htw this.2).2, this.1⟩
+  constructor
+  · intro hlen hok
+    have hiff := C04_taproot_spendable_iff lt sq (fun pk σ => decide (σ = sign pk (sighash L))) env e
+      (tweakX b s) (outKey L) hxl he [sign (outKey L') keyMsg] (by simp [hasAnnex])
+      (by intro x hx; simp at hx; subst hx; exact hlen) hcommit
+    rcases hiff.mp hok with ⟨σ, hσ, _, hk⟩ | ⟨σt, cb, hw, _⟩
+    · simp only [List.cons.injEq, and_true] at hσ
+      subst hσ
+      simp only [env, decide_eq_true_eq] at hk
+      exact hLne (hout (hsignK hk))
+    · have := congrArg List.length hw; simp at this
+  · intro cb hna hsz hok
+    have hiff := C04_taproot_spendable_iff lt sq (fun pk σ => decide (σ = sign pk (sighash L))) env e
+      (tweakX b s) (outKey L) hxl he [sign (tweakX b' s') (sighash L'), L, cb] hna hsz hcommit
+    rcases hiff.mp hok with ⟨σ, hσ, _⟩ | ⟨σt, cb', hw, _, _, hs, _⟩
+    · have := congrArg List.length hσ; simp at this
+    · simp only [List.cons.injEq, and_true, true_and] at hw
+      obtain ⟨hσt, _⟩ := hw
+      subst hσt
+      simp only [decide_eq_true_eq] at hs
+      exact hLne (hsh (hsignS hs).2)
+
+def exTweakX : Bytes → Bytes → Bytes := fun b s => List.replicate 32 (b.headD 0 + s.headD 0)
+def exCommit : Bytes → Bytes → Bytes → Bool := fun cb prog sc => sc == prog && cb == (0xc0 :: List.replicate 32 0)
+
+/-- non-vacuity of `C04_wrong_params_invalid_taproot`: all hypotheses hold for toy instances (concatenation as
+`sign`, identities as `sighash`/`outKey`); foreign expiry on both paths -/
+example :
+    verifyTaproot (stdCtx true 60000 0 (fun pk σ => decide (σ = exSign pk (tapLeaf exTweakX [1] [2] 52560))))
+      { keySpendOK := fun pk σ => decide (σ = exSign pk [9]), commitOK := exCommit }
+      (tapLeaf exTweakX [1] [2] 52560) [exSign (tapLeaf exTweakX [1] [2] 52561) [9]] ≠ .ok () :=
+  (C04_wrong_params_invalid_taproot exSign id exTweakX id [9] [1] [2] [1] [2] 52560 52561 (by decide) (by decide)
+    (by decide) (by decide) (fun _ => ⟨rfl, rfl⟩) (fun h => h) (fun h => h)
+    (fun h => List.append_cancel_right h) (fun h => ⟨rfl, List.append_cancel_left h⟩) (by decide) 60000 0 exCommit
+    (by
+      intro cb sc h
+      simp only [exCommit, Bool.and_eq_true, beq_iff_eq] at h
+      obtain ⟨h1, h2⟩ := h
+      subst h1; subst h2
+      exact ⟨rfl, by decide, 0xc0, List.replicate 32 0, rfl, by decide⟩)).1 (by decide)
 
 def exTkx : Bytes := List.replicate 32 5
 def exSig : Bytes := List.replicate 64 7
